@@ -439,7 +439,7 @@ func coqBody(c *Case) string {
 			}
 			ss[i] = fmt.Sprintf("DS %s %s %s %s", copt(s.Metric), clist(rs), csamples(ts, vs), cns(stamped))
 		}
-		return "BDDMet " + ddmetClock(c) + " " + clist(ss)
+		return "BDDMet " + clockOf(c, 0) + " " + clist(ss)
 	case "otlp":
 		rs := make([]string, len(c.Body.Otlp))
 		for i, r := range c.Body.Otlp {
